@@ -44,6 +44,20 @@ THEOREMS = {
     "C20_corr_unit_diag_nonconstant_rows_refuted": "REFUTED clause: a non-constant row is not enough for a unit diagonal; the code centres on the across-sample mean, a single sample gives NaN",
     "C20_corr_entry_def": "entry (i,j) = sum_k X[i][k]*X[j][k] / (sqrt S_i * sqrt S_j) with X = P - column mean; NaN when S_i or S_j = 0",
     "C20_corr_over_full_space": "the matrix is corr_of the average (over thetas) predictions at every combination of the full space, one row per distinct sample id in increasing order",
+    "C20_model_is_source_create_single_treatment_effect_map": "the Gallina translation of the WHOLE function batchie.data.create_single_treatment_effect_map, regenerated from /repo's current data.py on this run (Generated/SrcSynergy.v), equals the model effect_map for all inputs (arity = treatment_ids.shape[1]): the arity raise, the mask `np.sum(ids == CONTROL, axis=1) == shape[1] - 1` with the sentinel read from common.py, the three masked arrays (IndexError on a length mismatch), np.sort(...)[:, -1] = row maximum, both loops over np.unique, the control entry 1.0 + continue, the `&` mask, np.any + continue, the mean, the dict stores in insertion order",
+    "C20_model_is_source_create_single_treatment_effect_array": "the translation of the whole function create_single_treatment_effect_array (call of the translated map, np.ones_like, both enumerate loops, dict read with its KeyError, result[idx, treatment_idx] = ...) equals the model effect_array for all inputs",
+    "C20_model_is_source_calculate_synergy": "the translation of the WHOLE function batchie.synergy.calculate_synergy, regenerated from /repo's current synergy.py on this run, equals the model calculate_synergy for all inputs and both modes: the three raises, the call of the translated effect map, the mask and `~mask` selections, the loop over the multi-treatment rows (enumerate(zip(...)), the loop variable `observation` rebinding the parameter), the non-control ids, the inner loop with the strict raise / lenient continue, the length comparison + continue, np.prod(single_effects) - observation, the three appends, np.array of the three result lists (ragged id rows refused)",
+    "C20_model_is_source_mse": "the translation of ModelEvaluation.mse (through the translated properties predictions / observations: `((P - o[:, None]) ** 2).mean()`), regenerated from /repo's models/main.py on this run (Generated/SrcMetrics.v), equals the model ev_mse for every evaluation object the constructor builds",
+    "C20_model_is_source_mse_variance": "the translation of ModelEvaluation.mse_variance (`np.var(((P - o[:, None]) ** 2).mean(axis=1))`) equals ev_mse_variance for every constructed evaluation",
+    "C20_model_is_source_inter_chain_mse_variance": "the translation of ModelEvaluation.inter_chain_mse_variance (the loop over np.unique(chain_ids), the mask chain_ids == chain_id, the column selection P[:, mask], the per-chain mean, the append, np.var(np.array(mses))) equals ev_inter_chain for every constructed evaluation",
+    "C20_model_is_source_init": "the translation of ModelEvaluation.__init__ (four dtype guards - true of the arrays the wire carries -, the four shape checks with their raises, the four attribute stores) equals the model constructor mk_eval, whatever the fresh instance held; so `mk_eval ... = Ok e` in the other links means: e is what the translated constructor returns",
+    "C20_model_is_source_mean_predictions": "the translation of the property ModelEvaluation.mean_predictions (`self.predictions.mean(axis=1)`) equals ev_mean_predictions for every constructed evaluation",
+    "C20_model_is_source_predict_viability_avg": "the translation of the whole function models/main.py predict_viability_avg (zeros, the range loop with get_theta / predict_viability, the NaN raise, result = result + sub_result, result / n_thetas), thetas seen as the list of their prediction vectors, equals: ValueError if a prediction has another length than the screen, else the model predict_avg (NaN for no theta on a non-empty screen)",
+    "C20_model_is_source_calculate_mse": "the translation of the whole function retrospective.calculate_mse (call of the translated predict_viability_avg, np.mean((preds - observations) ** 2)) equals the model calculate_mse for all inputs",
+    "C20_model_is_source_combination_count": "the translation of models/main.py combination_count (math.factorial raising on a negative argument, //) equals the model combination_count on naturals",
+    "C20_model_is_source_generate_full_combinatoric_space": "the translation of the WHOLE function generate_full_combinatoric_space, regenerated from /repo on this run (Generated/SrcSpace.v), on mapping rows ((name, dose), id), equals the model full_space on the rows (key, id), for every numbering key of the (name, dose) pairs that is injective on the mapping's pairs: the size guard and its raise, zip of the mapping's name and dose columns, itertools.combinations of ALL rows with the screen's arity, the two projections, dict(zip(ids, names))[sample_id], the replicated sample name, and Screen(...) called with the screen's OWN sample_mapping and treatment_mapping",
+    "C20_source_synergy_def": "hence, on well-formed input, the TRANSLATED calculate_synergy equals the row-by-row definition synergy_def (C20_synergy_def composed with the link)",
+    "C20_source_effect_array_def": "hence, on well-formed input, the TRANSLATED create_single_treatment_effect_array equals effect_array_def",
 }
 ASSUMPTIONS = [
     "floating point rounding is not modelled: the model computes the real-number value over exact rationals; comparison tolerance 1e-9",
@@ -59,7 +73,63 @@ EXPLANATION = ("Model: Model/Metrics.v, Model/Synergy.v, Model/Corr.v; definitio
                "the correlation matrix of a single-sample screen (or of samples with identical average predictions) is NaN; where a "
                "sample's average predictions equal the across-sample mean only up to rounding, the implementation returns normalised rounding "
                "noise instead of NaN (such entries, 0/0 over the reals, are not compared; feature fp-noise-where-undefined). "
-               "Not modelled: the CLI wrappers, predict_* other than predict_viability_avg.")
+               "Not modelled: the CLI wrappers, predict_* other than predict_viability_avg. "
+               "SOURCE LINK (C20_model_is_source_*): calculate_synergy (synergy.py), create_single_treatment_effect_map and "
+               "create_single_treatment_effect_array (data.py) are re-translated as WHOLE functions into Gallina on every run "
+               "(harness/py2gal.py, configurations C20_* of harness/src_functions.py -> coq/theories/Generated/SrcSynergy.v; a function "
+               "outside the translated fragment, a changed parameter list or default, an undeclared variable or an unmatched call stops "
+               "the build) and the theorems prove the hand-written models of Model/Synergy.v EQUAL to the translations for all inputs, "
+               "without side condition; C20_source_synergy_def / C20_source_effect_array_def restate the definitional theorems about "
+               "the translations.  Loops, branches, the raises (message fragment -> ValueError tag 1), continue, the pair-keyed dict "
+               "(store, membership, read with KeyError), list appends, the rebinding of `observation` by the loop, `x - y` on floats "
+               "(exact rationals), the keyword call of create_single_treatment_effect_map (= the translated callee) come from the "
+               "translation.  Trusted: the translator (incl. its Lib/PyRt.v run-time: res_fold, pdict_*, list_set2, enumerate_z) and "
+               "these primitives, one numpy / builtin call each (end of Model/Synergy.v): CONTROL_SENTINEL_VALUE = the constant "
+               "gen_consts reads from common.py; treatment_ids.shape[1] = the explicit arity; a.shape[0] / len(a) = length; "
+               "`a == v` / `a != v` elementwise against a scalar (1-d, 2-d, scalar); np.sum(m, axis=1) = True count per row; `~m`; "
+               "`a & b` (equal lengths, else Err); `a[m]` / `a[m, :]` = the rows where the mask is True, IndexError unless the mask "
+               "has the array's length; np.sort(a, axis=1) = each row sorted; `a[:, -1]` = last entry of each row, IndexError when "
+               "shape[1] = 0; np.unique = sorted distinct values; a.flatten() = concatenated rows; np.any; np.mean of a 1-d array "
+               "(NaN = Err 6 on an empty one); np.prod of a list of floats (1.0 for []); zip (stops at the shortest); np.array of a "
+               "list of ints / floats = the list, of a list of id arrays = the rows if they have one length else ValueError; "
+               "np.ones_like(a, dtype=float); the literal 1.0; logger.warning ignored.  The links prove that none of the raising "
+               "primitives raises where the model does not (equal lengths wherever `&` and a mask are applied, a non-empty selection "
+               "wherever the mean is taken).  The differential cases emap / earr / syn exercise exactly these primitives on numpy. "
+               "ModelEvaluation.mse / mse_variance / inter_chain_mse_variance and the properties predictions / observations / chain_ids "
+               "(models/main.py) are likewise re-translated (configurations C20_EV_*, Generated/SrcMetrics.v) and proved equal to ev_mse / "
+               "ev_mse_variance / ev_inter_chain for every evaluation the constructor builds (hypothesis mk_eval ... = Ok e, a fact about "
+               "every reachable ModelEvaluation; m = predictions.shape[1]); the loop, the append and the property reads come from the "
+               "translation.  Trusted primitives there (end of Model/Metrics.v), one numpy call each, NaN = Err 6: self._predictions / "
+               "_observations / _chain_ids = the object's stored arrays; `o[:, None]` = the (n, 1) view; `P - column` broadcast along "
+               "rows (equal row counts, else Err); `x ** 2` elementwise; x.mean() = mean of all entries (NaN when none); "
+               "x.mean(axis=1) = per-row means (NaN for an empty row, [] for no rows); np.var = population variance (NaN when empty); "
+               "np.unique; `a == c` elementwise; `P[:, mask]` = the masked columns of every row, IndexError unless the mask has "
+               "shape[1] entries; np.array of a list of floats = the list.  "
+               "combination_count and generate_full_combinatoric_space (models/main.py; configurations C20_COMBINATION_COUNT / C20_SPACE, "
+               "Generated/SrcSpace.v) are re-translated too and proved equal to combination_count / full_space composed with the explicit "
+               "representation map key_rows (end of Model/Corr.v): the translation sees mapping rows ((name, dose), id) with integers for "
+               "the strings / floats, the model rows (key, id); hypothesis: key is injective on the mapping's (name, dose) pairs (true of the "
+               "harness's numbering of distinct pairs).  Which mapping rows are combined, with which arity, that BOTH of the screen's own "
+               "mappings are handed to Screen(...), and the name looked up by id through dict(zip(...)) are read from the source.  Trusted "
+               "primitives there: screen.treatment_space_size = number of mapping rows; screen.treatment_arity; treatment_mapping[0] / [1] "
+               "and sample_mapping[0] / [1] = the columns; math.factorial (ValueError when negative); 1e7 = 10000000 compared exactly; zip; "
+               "itertools.combinations = Corr.combs (ValueError on k < 0); list(...) / np.array(..., dtype=object) = the same nested list; "
+               "c[:, :, j] = the j-th component of every pair, IndexError unless the array is 3-d (non-empty list of k-tuples, k >= 1); "
+               "c.shape[0]; `[x] * n`; np.array of a list; dict(pairs) (later pair wins) and d[k] (KeyError); .astype(str / float) = same "
+               "values; and ONE large one: Screen(names, doses, sample names, plate names, sample_mapping, treatment_mapping) with both "
+               "mappings supplied = keyed lookup of every sample name and every (name, dose) pair in the supplied mapping, ValueError on "
+               "a miss (Corr.space_screen; the pandas-merge assumption above), returning (sample_ids, treatment_ids); plate names unmodelled. "
+               "predict_viability_avg (models/main.py) and retrospective.calculate_mse are re-translated (C20_PREDICT_AVG, C20_CALC_MSE) and "
+               "proved equal to predict_avg / calculate_mse for all inputs; there a theta is the prediction vector it gives on the screen and "
+               "the observed screen is its observations.  Trusted primitives: screen.size; np.zeros((n,)); thetas.n_thetas = number of thetas; "
+               "thetas.get_theta(i) = the i-th (Python list indexing); theta.predict_viability(screen) = that theta's vector; np.isnan = "
+               "nowhere on exact rationals, m.any(); `a + b` / `a - b` on equal-length vectors (else Err); `v / n` entrywise, n = 0: NaN "
+               "for zero entries (inf, unmodelled tag 96, for others - proved not to occur); `x ** 2`; np.mean (NaN when empty); "
+               "screen.observations; Screen.size = len(observations) at the call of predict_viability_avg.  "
+               "mean_predictions is linked like mse (C20_EV_MEAN_PREDICTIONS).  "
+               "ModelEvaluation.__init__ is linked to mk_eval (C20_EV_INIT; trusted there: the four np.issubdtype guards are true, len(predictions.shape) = 2 "
+               "iff every row has shape[1] entries, a.shape[0] = length).  "
+               "Not linked (left to the correspondence): correlation_matrix, ModelEvaluation.save_h5 / load_h5, the other predict_* helpers.")
 
 TAGS = {1: "ValueError", 4: "IndexError", 5: "KeyError"}
 NAN = "nan"
